@@ -356,3 +356,28 @@ claim(
     'call-graph zones + handler coverage; must-dataflow of guard facts with '
     're-derived predicate summaries (shape oracle); CFG of main()',
     'DESIGN.md §4 C04')
+
+claim(
+    'C15', 'other',
+    'Abstract interpretation of all Simplification(...) construction sites '
+    '(~80) and all Node(...) constructions of the mutator modules and '
+    'smtlib: (R1) every replacement value has abstract kind Node or None '
+    '(a Python tuple/str/int is a violation; helpers that may return None '
+    'must be None-checked), declarations are nodes; (R2) keys are '
+    'identities of nodes reached from the node parameter / the input, or '
+    'such nodes; (R3) leaf-text provenance - every string that becomes a '
+    'leaf is a constant checked against a reference lexer, a number, the '
+    'verbatim text of an existing leaf, an escaped body inside quotes, inner '
+    'text inside pipes, or a concatenation of token-safe fragments that is '
+    'provably non-empty (length guards); the unquoting filter\'s regular '
+    'expression is parsed and must cover the whole leaf with simple-symbol '
+    'characters only; (R4) each declared symbol is dominated by "not '
+    'is_var" (directly or through derive_symbol + None test); (R5) every '
+    'assert in a mutator body is implied by its filter; (R6) declarations '
+    'go right after the leading prefix (C11.R5).',
+    'Not decided: well-sortedness. Unknown constructs stop the run with '
+    'ANALYSIS-ERROR (exit 2), never with a verdict. Assumes reader-produced '
+    'leaf text is a token and quoted-symbol inner text has no "|".',
+    'abstract shape/leaf-text domain over AST with one-level interprocedural '
+    'summaries, filter facts imported into mutations, regex AST inspection',
+    'DESIGN.md §4 C15')
